@@ -110,5 +110,14 @@ CHECKS["C07"] = {
     "quick": {"checks": 1500, "timeout": 900},
     "thorough": {"checks": 30000, "timeout": 3400, "shards": 8},
 }
+CHECKS["C02"] = {
+    "pkg": "./props/c02",
+    "level": "exploration",
+    "technique": "metamorphic property-based testing (rapid): mutate protected regions (computed from the format specifications by independent readers) of signed artefacts; verifier must reject",
+    "level_text": "18 artefact kinds (PE, MSI, JAR, APK, VSIX, XAP, APPX, PowerShell, Mach-O, CAB, DMG, XAR, RPM, DEB, catalog, PGP detached/clearsign/inline) are signed with drawn key and digest; the harness computes protected byte ranges from the format specifications with independent readers (PE layout parser, CFB reader incl. mini-stream ranges, ZIP directory, Mach-O sections, CAB/DMG/XAR/RPM/ar headers, PGP v4 packet structure, DER walker for signed attributes, message digest, content octets, signature value and leaf certificate) and applies bit flips, overwrites, 2-8 byte scrambles and truncations there, plus semantic edits (replace/delete/add ZIP member, graft a signature onto other content, append data after or inside the signature container, add or change an MSI stream by rebuilding the container). A mutation that the independent reader shows to leave protected content unchanged is discarded and counted. relic's verifier (digests and chain on) must reject every remaining mutant.",
+    "level_note": "Protected sets follow the specifications, not relic (e.g. the outer ContentInfo framing, PGP unhashed subpackets, [Content_Types].xml of OPC packages and unlisted JAR members are not claimed protected). A verifier panic on a mutant is counted, not reported here (C11's subject).",
+    "quick": {"checks": 25, "timeout": 1500, "env": {"VERIF_C02_MUTATIONS": 10}},
+    "thorough": {"checks": 400, "timeout": 3400, "shards": 8, "env": {"VERIF_C02_MUTATIONS": 25}},
+}
 for _pid in CHECKS:
     NOT_APPLICABLE.pop(_pid, None)
